@@ -48,7 +48,48 @@ REQUIRED_COUNTERS = ["applications_compared", "contexts_compared",
                      "registrations"]
 
 
+def run_invocations(case):
+    """insert_at / replace_at (code and data blocks, several per block): the
+    InsertionContext of every callback names the block the request was made
+    for, the requested offset and the block's function (none for data)"""
+    ctr = {"insertion_contexts_checked": 0}
+    viol = []
+    r = rewrite.run(case)
+    if r.exception is not None:
+        return {"sig": None, "violations": [], "counters": ctr}
+    fn_of = {b: f["name"] for f in case["funcs"] for b in f["blocks"]}
+    for inv in r.rec.invocations:
+        eid = inv["eid"]
+        if eid >= 1000 or eid >= len(case["edits"]):
+            continue
+        e = case["edits"][eid]
+        blk = rwbase.find_block(case, e["b"])
+        ctr["insertion_contexts_checked"] += 1
+        if inv["block"] is not r.bu.blocks[e["b"]]:
+            viol.append({"key": "context:block-is-not-the-requested-block",
+                         "msg": f"edit {eid}"})
+        want_off = r.bu.item_offsets[e["b"]][e["i"]]
+        if inv["offset"] != want_off:
+            viol.append({"key": "context:offset-differs",
+                         "msg": f"edit {eid}: {inv['offset']} != {want_off}"})
+        want_fn = fn_of.get(e["b"]) if blk["code"] else None
+        got_fn = inv["function"].get_name() if inv["function"] is not None \
+            else None
+        if got_fn != want_fn:
+            viol.append({
+                "key": "context:function-differs:" + (
+                    "code" if blk["code"] else "data"),
+                "msg": f"edit {eid}: {got_fn} != {want_fn}"})
+    return {"sig": rwbase.shape_signature(case) + "|ctx" if case["edits"]
+            else None, "violations": viol, "counters": ctr}
+
+
 def gen_case(rng, tier, index):
+    if index % 10 == 7:
+        case = gen_rewrite.generate(rng, tier, shared_blocks=False)
+        case["w"] = "invocations"
+        case.pop("driver", None)
+        return case
     if index % 25 == 24:
         # a block that capstone decodes only in part: positions that need the
         # block's instructions must be refused, never guessed
@@ -369,6 +410,8 @@ def run_case(case):
         return run_again(case)
     if case.get("w") == "undecodable":
         return run_undecodable(case)
+    if case.get("w") == "invocations":
+        return run_invocations(case)
     viol = []
     ctr = {"applications_compared": 0, "contexts_compared": 0,
            "registrations": 0, "expected_refusals": 0,
